@@ -36,10 +36,28 @@ def run(ctx):
     if not tf or not os.path.exists(tf):
         raise Infra("stackless harness wrote no trace")
     ctx.validate_traces("util", "StacklessTrace", tf, label="stackless.NewFunc", dfs=False, timeout=1700)
+    if not ctx.quick and not ctx.violations:
+        # binding self-test: a rejected call forged into a success must make StacklessTrace reject the log
+        lines = [json.loads(x) for x in open(tf) if x.strip()]
+        idx = next((i for i, r in enumerate(lines) if r.get("ev") == "ret" and r.get("ok") == 0), None)
+        if idx is None:
+            raise Infra("self-test impossible: no rejected call in the stackless log")
+        lines[idx]["ok"] = 1
+        # keep only the execution containing the forged line
+        start = max(i for i in range(idx + 1) if lines[i].get("ev") == "init")
+        end = next((i for i in range(idx + 1, len(lines)) if lines[i].get("ev") == "init"), len(lines))
+        sp = os.path.join(ctx.scratch, "c22_selftest.ndjson")
+        with open(sp, "w") as f:
+            for r in lines[start:end]:
+                f.write(json.dumps(r) + "\n")
+        ok, at, _ = ctx.tlc_trace("util", "StacklessTrace", sp, dfs=False, timeout=900)
+        if ok:
+            raise Infra("self-test failed: StacklessTrace accepted a log in which a rejected call reports success")
+        ctx.extra["trace_selftest_rejected_at"] = at
     # ---- real codecs: saturation recipe + sequential sweep, then the negotiation table through a server
     try:
         recs = ctx.go_test(".", ["c22_"], "^TestVerifC22", infile=p, timeout=1700, test_timeout=1600,
-                           env={"VERIF_C22_BURSTS": ctx.pick(1, 3)})
+                           env={"VERIF_C22_BURSTS": ctx.pick(1, 3), "VERIF_C22_BURST_ZSTD": ctx.pick(2048 + 600, 3 * 2048 + 100)})
         ctx.absorb(recs)
     except Infra as e:
         # a crash of the codec harness is an infrastructure error -- unless the stackless part has
